@@ -92,6 +92,13 @@ func (r *recorder) start(gates ...*gate) {
 	r.mu.Unlock()
 }
 
+// arm installs gates while recording continues.
+func (r *recorder) arm(gates ...*gate) {
+	r.mu.Lock()
+	r.gates = gates
+	r.mu.Unlock()
+}
+
 func (r *recorder) stop() []event {
 	r.mu.Lock()
 	defer r.mu.Unlock()
